@@ -178,7 +178,7 @@ class C08(Check):
     # == A: the ladder =================================================================================
     def part_a(self, ctx, cssutils):
         rng = ctx.sub_rng('A')
-        cases = list(G.readurl_table(rng, rounds=ctx.n(1, 6)))
+        cases = list(G.readurl_table(rng, rounds=ctx.n(2, 12)))
         ctx.notes['A_table_rows'] = len(cases)
         self.check_readurl(ctx, cssutils, cases)
 
@@ -231,7 +231,7 @@ class C08(Check):
     # == B: import trees =================================================================================
     def part_b(self, ctx, cssutils):
         rng = ctx.sub_rng('B')
-        cases = list(G.fixed_trees()) + [G.gen_tree(rng) for _ in range(ctx.n(700, 14000))]
+        cases = list(G.fixed_trees()) + [G.gen_tree(rng) for _ in range(ctx.n(3000, 40000))]
         self.check_trees(ctx, cssutils, cases)
 
     def check_trees(self, ctx, cssutils, cases):
@@ -285,7 +285,7 @@ class C08(Check):
     # == C: edits ======================================================================================
     def part_c(self, ctx, cssutils):
         rng = ctx.sub_rng('C')
-        hist = [G.gen_edits(rng) for _ in range(ctx.n(500, 10000))]
+        hist = [G.gen_edits(rng) for _ in range(ctx.n(2000, 30000))]
         self.check_edits(ctx, cssutils, G.fixed_edits() + hist)
 
     def check_edits(self, ctx, cssutils, histories):
@@ -315,10 +315,10 @@ class C08(Check):
     def part_d(self, ctx, cssutils):
         rng = ctx.sub_rng('D')
         pairs = G.fixed_escape_pairs()
-        for _ in range(ctx.n(1500, 40000)):
+        for _ in range(ctx.n(6000, 80000)):
             pairs.append((G.gen_escape_text(rng), rng.choice(G.TARGETS)))
         self.check_escape(ctx, cssutils, pairs)
-        texts = G.fixed_unescape_texts() + [G.gen_unescape_text(rng) for _ in range(ctx.n(3000, 80000))]
+        texts = G.fixed_unescape_texts() + [G.gen_unescape_text(rng) for _ in range(ctx.n(12000, 200000))]
         self.check_unescape(ctx, cssutils, texts)
 
     def check_escape(self, ctx, cssutils, pairs):
@@ -376,7 +376,7 @@ class C08(Check):
         for text in G.fixed_sheets():
             for e in G.TARGETS:
                 self.check_reparse(ctx, cssutils, text, e)
-        for _ in range(ctx.n(250, 6000)):
+        for _ in range(ctx.n(900, 15000)):
             text = G.gen_sheet(rng)
             for e in rng.sample(G.TARGETS, 3):
                 self.check_reparse(ctx, cssutils, text, e)
